@@ -431,7 +431,7 @@ func main() {
 	vlib.Main(vlib.Spec{
 		ID:    "C19",
 		Level: "exploration",
-		Rule: "bounded-exhaustive: mirror types = hand-written aircraftlib mirrors (Z with every union arm, PlaneBase plain / embedded / pointer-embedded / renamed / omitted fields, Defaults, StackingRoot, HoldsText, RWTestCapn, Counter, Aircraft, VoidUnion, fixed-union Square-style) and reflect.StructOf mirrors of every struct of the C15 schema family (every field kind x offset x default x union/group context) in 2 flavours (string/[]byte text, pointer/value structs and groups, client/wrapper interfaces); (i) Go values: every leaf field set to every value of its alphabet (others zero), ordered pairs of leaves (later assignment decides Which; the earlier may be left in an inactive arm): all pairs for types with <=30 (thorough <=60) leaves, for wider types all pairs with at least one member among 6 (thorough 8) evenly spread leaves, every union arm incl. void and group arms, lists nil/empty/1/2 elements, nested lists; (ii) messages built with generated setters in every order of <=2 (thorough: 3 for types with <=14 leaves) operations (same pair selection) incl. switching union arms with stale bytes, then Extract, then Insert in place; (iii) the same single assignments against structs allocated shorter than the schema says (data/pointer sections 0, 1, half, size-1): Extract must agree with the getters, Insert must fail or keep the value; (iv) lists of 1000/30000 (thorough 100000) struct elements. A case is non-trivial if Insert or Extract ran on it and its result was compared with the generated accessors.",
+		Rule:  "bounded-exhaustive: mirror types = hand-written aircraftlib mirrors (Z with every union arm, PlaneBase plain / embedded / pointer-embedded / renamed / omitted fields, Defaults, StackingRoot, HoldsText, RWTestCapn, Counter, Aircraft, VoidUnion, fixed-union Square-style) and reflect.StructOf mirrors of every struct of the C15 schema family (every field kind x offset x default x union/group context) in 2 flavours (string/[]byte text, pointer/value structs and groups, client/wrapper interfaces); (i) Go values: every leaf field set to every value of its alphabet (others zero), ordered pairs of leaves (later assignment decides Which; the earlier may be left in an inactive arm): all pairs for types with <=30 (thorough <=60) leaves, for wider types all pairs with at least one member among 6 (thorough 8) evenly spread leaves, every union arm incl. void and group arms, lists nil/empty/1/2 elements, nested lists; (ii) messages built with generated setters in every order of <=2 (thorough: 3 for types with <=14 leaves) operations (same pair selection) incl. switching union arms with stale bytes, then Extract, then Insert in place; (iii) the same single assignments against structs allocated shorter than the schema says (data/pointer sections 0, 1, half, size-1): Extract must agree with the getters, Insert must fail or keep the value; (iv) lists of 1000/30000 (thorough 100000) struct elements. A case is non-trivial if Insert or Extract ran on it and its result was compared with the generated accessors.",
 		Assumptions: []string{
 			"the generated accessors are the reference for what a message means (C15 checks them against the schema layout)",
 			"documented nil/empty equivalences: nil and empty []byte / slices are the same value; a nil *T for a field whose schema has a struct default is left open (null means default on the wire); nil *T elements of a struct list are left open",
@@ -463,6 +463,7 @@ func main() {
 				{Name: "large-values", N: int64(len(w.large)),
 					Run:      func(i int64, r *vlib.Rec) { largeCase(w.large[i], r) },
 					Describe: func(i int64) interface{} { return w.large[i].String() }},
+				sharedTypeFamily(),
 			}
 		},
 		Extra: func(tier string) map[string]interface{} {
